@@ -1,31 +1,16 @@
 import AioslskVerif.Model.Transfer
 import AioslskVerif.Spec.TransferGraph
 /-!
-Helper lemmas for C03 (`Props/C03.lean`): checks of the regenerated table against the frozen
-spec, and the invariant of the lock/dispatch model.
+Helper lemmas for C03 (`Props/C03.lean`): the shape of the who-did-what trace and the invariant of
+the lock/dispatch model (parametrised by soundness of the regenerated table).
 -/
 namespace AioslskVerif.Transfer
 open AioslskVerif.Generated.Transfer AioslskVerif.Spec.Transfer
 
-/-! ### The regenerated table against the frozen graph (finite: 2 × 10 × 8 entries) -/
-
-/-- every overridden method leads along a documented edge, to the method's own target state -/
-theorem table_check (d : Dir) (s : St) (m : Meth) :
-    (match implStep d s m with
-     | some (t, _) => edge d s t && decide (t = target d m)
-     | none => true) = true := by
-  cases d <;> cases s <;> cases m <;> decide
-
-/-- a method is overridden exactly where the documented graph has the edge to its target -/
-theorem table_complete_check (d : Dir) (s : St) (m : Meth) :
-    (implStep d s m).isSome = edge d s (target d m) := by
-  cases d <;> cases s <;> cases m <;> decide
-
-theorem table_sound {d : Dir} {s : St} {m : Meth} {t : St} {e : List Eff}
-    (h : implStep d s m = some (t, e)) : edge d s t = true ∧ t = target d m := by
-  have := table_check d s m
-  rw [h] at this
-  simpa using this
+/-- What the concurrent theorems need from the regenerated table (discharged in `Props/C03.lean` by
+`C03_table_sound`, so that a table that breaks it is reported as exactly that obligation). -/
+def TableSound : Prop :=
+  ∀ (d : Dir) (s : St) (m : Meth) (t : St) (e : List Eff), implStep d s m = some (t, e) → edge d s t = true
 
 /-! ### Shape of the ghost trace -/
 
@@ -156,7 +141,7 @@ theorem runEffs_inv (cfg : Cfg) (c : Call) (t : St) (effs : List Eff) :
       · exact Shape.eff c.id e hsh
       · exact hedge
 
-theorem grant_inv (cfg : Cfg) (hm : cfg.mode = .current) (c : Call) (x : XState)
+theorem grant_inv (hts : TableSound) (cfg : Cfg) (hm : cfg.mode = .current) (c : Call) (x : XState)
     (hinv : Inv cfg x) (hfree : x.holder = none) : Inv cfg (grant cfg c x) := by
   have hsh : Shape .idle x.trace := by simpa [hfree, phaseOf] using hinv.shape
   unfold grant
@@ -172,30 +157,30 @@ theorem grant_inv (cfg : Cfg) (hm : cfg.mode = .current) (c : Call) (x : XState)
   · next t effs heq =>
     have hd : dispatchOn cfg x c = x.cur := by simp [dispatchOn, hm]
     rw [hd] at heq
-    exact runEffs_inv cfg c t effs false x hinv.events (Shape.start c.id hsh) (table_sound heq).1
+    exact runEffs_inv cfg c t effs false x hinv.events (Shape.start c.id hsh) (hts _ _ _ _ _ heq)
 
-theorem drain_inv (cfg : Cfg) (hm : cfg.mode = .current) (cs : List Call) :
+theorem drain_inv (hts : TableSound) (cfg : Cfg) (hm : cfg.mode = .current) (cs : List Call) :
     ∀ x : XState, Inv cfg x → x.holder = none → Inv cfg (drain cfg cs x) := by
   induction cs with
   | nil => intro x hinv _; exact ⟨hinv.events, hinv.shape, hinv.pending⟩
   | cons c cs ih =>
     intro x hinv hfree
-    have hg := grant_inv cfg hm c x hinv hfree
+    have hg := grant_inv hts cfg hm c x hinv hfree
     unfold drain
     dsimp only
     split
     · exact ⟨hg.events, hg.shape, hg.pending⟩
     · next hnone => exact ih _ hg hnone
 
-theorem arrive_inv (cfg : Cfg) (hm : cfg.mode = .current) (c : Call) (x : XState)
+theorem arrive_inv (hts : TableSound) (cfg : Cfg) (hm : cfg.mode = .current) (c : Call) (x : XState)
     (hinv : Inv cfg x) : Inv cfg (arrive cfg c x) := by
   unfold arrive
   dsimp only
   split
   · next p hp => exact ⟨hinv.events, hinv.shape, hinv.pending⟩
-  · next hnone => exact drain_inv cfg hm _ x hinv hnone
+  · next hnone => exact drain_inv hts cfg hm _ x hinv hnone
 
-theorem step_inv (cfg : Cfg) (hm : cfg.mode = .current) (x : XState) (op : XOp)
+theorem step_inv (hts : TableSound) (cfg : Cfg) (hm : cfg.mode = .current) (x : XState) (op : XOp)
     (hinv : Inv cfg x) : Inv cfg (step cfg x op) := by
   cases op with
   | create c => exact ⟨hinv.events, hinv.shape, hinv.pending⟩
@@ -203,8 +188,8 @@ theorem step_inv (cfg : Cfg) (hm : cfg.mode = .current) (x : XState) (op : XOp)
     simp only [step]
     split
     · exact hinv
-    · exact arrive_inv cfg hm _ _ ⟨hinv.events, hinv.shape, hinv.pending⟩
-  | call c => exact arrive_inv cfg hm _ _ hinv
+    · exact arrive_inv hts cfg hm _ _ ⟨hinv.events, hinv.shape, hinv.pending⟩
+  | call c => exact arrive_inv hts cfg hm _ _ hinv
   | resume =>
     simp only [step]
     split
@@ -230,16 +215,16 @@ theorem step_inv (cfg : Cfg) (hm : cfg.mode = .current) (x : XState) (op : XOp)
           exact runEffs_inv cfg p.call p.target p.rest true x hinv.events hsh (hinv.pending p hp hn')
       split
       · exact hr
-      · next hnone => exact drain_inv cfg hm _ _ hr hnone
+      · next hnone => exact drain_inv hts cfg hm _ _ hr hnone
   | spawn => exact ⟨hinv.events, hinv.shape, hinv.pending⟩
   | setFile => exact ⟨hinv.events, hinv.shape, hinv.pending⟩
   | tick => exact ⟨hinv.events, hinv.shape, hinv.pending⟩
 
-theorem run_inv (cfg : Cfg) (hm : cfg.mode = .current) (ops : List XOp) :
+theorem run_inv (hts : TableSound) (cfg : Cfg) (hm : cfg.mode = .current) (ops : List XOp) :
     ∀ x : XState, Inv cfg x → Inv cfg (run cfg x ops) := by
   induction ops with
   | nil => intro x h; exact h
-  | cons op ops ih => intro x h; exact ih _ (step_inv cfg hm x op h)
+  | cons op ops ih => intro x h; exact ih _ (step_inv hts cfg hm x op h)
 
 theorem init_inv (cfg : Cfg) (s : St) (f : Fields) : Inv cfg (init s f) :=
   ⟨by intro id a b h; simp [init] at h, by simpa [init, phaseOf] using Shape.nil,
